@@ -117,6 +117,7 @@ func closePipe(n *Named, name string) {
 	}
 
 	n.mutex.Unlock()
+	verifhook.Gate(n, "np.timer.done:"+name)
 }
 
 // Deletes a named pipe without closing it (careful using this!!!)
